@@ -427,12 +427,40 @@ MARK, EMARK = b"@@probe", b"!!error"
 STOP_RE = re.compile(rb"<StopIter instance @ 0x[0-9a-f]+>")
 
 
-def render_lines(lines):
-    return "O" + ",".join("=" + l.hex() for l in lines)
+def fnv(h, data):
+    for c in data:
+        h = ((h ^ c) * 1099511628211) & 0xFFFFFFFFFFFFFFFF
+    return h
+
+
+FNV0 = 14695981039346656037
+
+
+class Out:
+    """outcome of one probe on the implementation: rendered like StrRun.show_outcome, canonical bytes like StrRun.canon"""
+    __slots__ = ("text", "canon")
+
+    def __init__(self, text, canon):
+        self.text, self.canon = text, canon
+
+    def digest(self):
+        return fnv(FNV0, self.canon)
+
+
+def out_of_chunk(c):
+    c = [STOP_RE.sub(b"<StopIter instance @ A>", l) for l in c]
+    if EMARK in c:
+        i = c.index(EMARK)
+        rest = c[i + 1:]
+        m = re.match(rb"<class (\w+)>$", rest[0]) if rest else None
+        if i == 0 and m and len(rest) == 2:
+            return Out("E%s:%s" % (m.group(1).decode(), rest[1].hex()), m.group(1) + b":" + rest[1])
+        return Out("MIXED:" + ",".join(l.hex() for l in c), b"MIXED\x00" + b"\n".join(c))
+    return Out("O" + ",".join("=" + l.hex() for l in c), b"O" + b"".join(l + b"\n" for l in c))
 
 
 def parse_program_output(rec, n):
-    """splits the O lines of one program at the '@' markers; returns list of rendered outcomes or None"""
+    """splits the O lines of one program at the markers; returns (list of Out, printed lines) or None"""
     if rec.crashed or rec.result[0] != "ok":
         return None
     raw = [yvlib.unhx(x[0]) if x and x[0] else b"" for x in rec.tagged("O")]
@@ -446,27 +474,15 @@ def parse_program_output(rec, n):
             chunks[-1].append(l)
     if len(chunks) != n:
         return None
-    return [render_chunk(c) for c in chunks], raw
-
-
-def render_chunk(c):
-    c = [STOP_RE.sub(b"<StopIter instance @ A>", l) for l in c]
-    if EMARK in c:
-        i = c.index(EMARK)
-        rest = c[i + 1:]
-        m = re.match(rb"<class (\w+)>$", rest[0]) if rest else None
-        if i == 0 and m and len(rest) == 2:
-            return "E%s:%s" % (m.group(1).decode(), rest[1].hex())
-        return "MIXED:" + ",".join(l.hex() for l in c)
-    return render_lines(c)
+    return [out_of_chunk(c) for c in chunks], [l for c in chunks for l in c]
 
 
 def run_impl(binary, probes, per_program=60):
-    """returns (list of rendered outcome per probe, list of all printed byte lines)"""
+    """returns (list of Out per probe, set of all printed byte lines)"""
     progs = [probes[i:i + per_program] for i in range(0, len(probes), per_program)]
-    recs = yvlib.run_harness(binary, ["run - " + hx("\n".join(p.snippet() for p in g)) for g in progs], case_timeout_ms=30000)
+    recs = yvlib.run_harness(binary, ["run - " + hx("\n".join(p.snippet() for p in g)) for g in progs], case_timeout_ms=60000)
     out = []
-    printed = []
+    printed = set()
     redo = []
     for g, r in zip(progs, recs):
         res = parse_program_output(r, len(g))
@@ -475,18 +491,22 @@ def run_impl(binary, probes, per_program=60):
             out.extend([None] * len(g))
         else:
             out.extend(res[0])
-            printed.extend(res[1])
-    for base, g in redo:
+            printed.update(res[1])
+    for base, g in redo[:40]:
         recs1 = yvlib.run_harness(binary, ["run - " + hx(p.snippet()) for p in g], case_timeout_ms=10000)
         for k, (p, r) in enumerate(zip(g, recs1)):
             res = parse_program_output(r, 1)
             if res is None:
                 kind, detail = r.result
-                out[base + k] = "%s:%s" % ("PANIC" if kind == "panic" else kind.upper(), detail if isinstance(detail, str) else "")
-                printed.extend(yvlib.unhx(x[0]) if x and x[0] else b"" for x in r.tagged("O"))
+                text = "%s:%s" % ("PANIC" if kind == "panic" else kind.upper(), detail if isinstance(detail, str) else "")
+                out[base + k] = Out(text, b"ABNORMAL\x00" + text.encode())
+                printed.update(yvlib.unhx(x[0]) if x and x[0] else b"" for x in r.tagged("O"))
             else:
                 out[base + k] = res[0][0]
-                printed.extend(res[1])
+                printed.update(res[1])
+    for base, g in redo[40:]:
+        for k in range(len(g)):
+            out[base + k] = Out("ABNORMAL:program did not finish (not re-run individually)", b"ABNORMAL\x00")
     return out, printed
 
 
@@ -506,11 +526,10 @@ def batch_wire(groups):
         for l in g.lists:
             rows.append(" ".join(str(ref(v)) for v, _ in l))
     # table indices count VALUES (a vec is one value spanning several groups)
-    return ";".join(table.keys()) + "|" + ";".join(rows)
+    return '"%s|%s"' % (";".join(table.keys()), ";".join(rows))
 
 
-def run_model(groups, tag, batch=700):
-    """groups -> (mech, spec) rendered outcomes per probe, in expansion order"""
+def make_batches(groups, batch):
     batches, cur, n = [], [], 0
     for g in groups:
         cur.append(g)
@@ -520,23 +539,57 @@ def run_model(groups, tag, batch=700):
             cur, n = [], 0
     if cur:
         batches.append(cur)
-    terms = []
-    for b in batches:
-        w = '"%s"' % batch_wire(b)
-        terms.append("run_mech_w %s" % w)
-        terms.append("run_spec_w %s" % w)
-    nshard = max(1, min(3 * yvlib.NPROC, len(batches)))
-    shard = 2 * max(1, (len(batches) + nshard - 1) // nshard)
-    vals = yvlib.coq_eval(["YV:StrRun"], terms, shard_size=shard, tag="C13" + tag, preamble=PRE)
-    mech, spec = [], []
-    for i, b in enumerate(batches):
+    return batches
+
+
+def coq_terms(terms, tag):
+    if not terms:
+        return []
+    nshard = max(1, min(3 * yvlib.NPROC, len(terms)))
+    shard = max(1, (len(terms) + nshard - 1) // nshard)
+    return yvlib.coq_eval(["YV:StrRun"], terms, shard_size=shard, tag="C13" + tag, preamble=PRE)
+
+
+def compare(ctx, groups, impl, tag, batch=900, max_full=60):
+    """impl == M and impl == S, by batch digests first, per-probe digests for differing batches, full rendering
+    for the probes that have to be shown.  Returns list of (index, impl Out, M text, S text) for differing probes."""
+    batches = make_batches(groups, batch)
+    wires = [batch_wire(b) for b in batches]
+    vals = coq_terms(["run_digest_w %s" % w for w in wires], tag + "dg")
+    suspects = []        # (batch index, offset of its first probe)
+    off = 0
+    n_mdiff = 0
+    for bi, (b, v) in enumerate(zip(batches, vals)):
         size = sum(g.size() for g in b)
-        for dst, v in ((mech, vals[2 * i]), (spec, vals[2 * i + 1])):
-            parts = v.split("|") if v is not None and size else []
+        h = FNV0
+        for o in impl[off:off + size]:
+            h = fnv(fnv(h, o.canon), b"\xff")
+        f = v.split(",") if v else []
+        if len(f) != 4 or int(f[0]) != size:
+            ctx.corr_broken.append("model evaluation failed (coq_eval run_digest_w) on a batch starting with `%s`" % next(b[0].probes()).body())
+        else:
+            n_mdiff += int(f[3])
+            if int(f[1]) != h or int(f[2]) != h or int(f[3]) != 0:
+                suspects.append((bi, off))
+        off += size
+    diffs = []           # (probe index, dM, dS)
+    if suspects:
+        log("[C13] %d of %d batches differ -> per-probe digests" % (len(suspects), len(batches)))
+        dv = coq_terms(["run_detail_w %s" % wires[bi] for bi, _ in suspects], tag + "dt")
+        for (bi, off), v in zip(suspects, dv):
+            size = sum(g.size() for g in batches[bi])
+            parts = v.split("|") if v else []
             if len(parts) != size:
-                parts = [None] * size
-            dst.extend(parts)
-    return mech, spec
+                ctx.corr_broken.append("model evaluation failed (coq_eval run_detail_w)")
+                continue
+            for k, part in enumerate(parts):
+                dm, _, ds = part.partition("!")
+                dm = int(dm)
+                ds = int(ds) if ds else dm
+                di = impl[off + k].digest()
+                if di != dm or di != ds:
+                    diffs.append((off + k, dm, ds))
+    return diffs, n_mdiff
 
 
 def outcome_kind(rendered):
@@ -574,56 +627,69 @@ def check(ctx, groups, tag):
     binary = ctx.harness("debug")
     probes = [p for g in groups for p in g.probes()]
     impl, printed = run_impl(binary, probes)
-    mech, spec = run_model(groups, tag)
-    combos = set()
-    n_viol = 0
-    viol = []
-    for p, i, m, s in zip(probes, impl, mech, spec):
-        if m is None or s is None:
-            ctx.corr_broken.append("model evaluation failed (coq_eval) on probe %s" % p.body())
-            continue
-        if i != s:
-            n_viol += 1
-            viol.append((p, i, m, s))
-        elif i != m:
-            if len(ctx.corr_broken) < 8:
-                ctx.corr_broken.append("impl != M (StrFns.v/Index.v) on `%s`: impl %r, M %r" % (p.body(), human(i), human(m)))
-        if m != s and len(ctx.broken) < 8:
-            ctx.broken.append("M != S on `%s` (contradicts the refinement theorems): M %r, S %r" % (p.body(), human(m), human(s)))
-        k = outcome_kind(i)
-        if not (p.ascii_only and k == "ok"):
-            combos.add((p.fn,) + tuple(p.shape) + (k,))
-    # the smallest failing snippets first; at most 5 are reported
-    viol.sort(key=lambda v: (len(v[0].body()), v[0].body()))
-    for p, i, m, s in viol[:5]:
+    diffs, n_mdiff = compare(ctx, groups, impl, tag)
+    if n_mdiff:
+        ctx.broken.append("M != S on %d probes (contradicts the refinement theorems)" % n_mdiff)
+    # classify the differing probes: impl != S is a violation, impl == S but != M a broken correspondence
+    viol = [(i, dm, ds) for i, dm, ds in diffs if impl[i].digest() != ds]
+    corr = [(i, dm, ds) for i, dm, ds in diffs if impl[i].digest() == ds]
+    viol.sort(key=lambda d: (len(probes[d[0]].body()), probes[d[0]].body()))
+    show = viol[:5] + corr[:5] + [d for d in diffs if d[1] != d[2]][:5]
+    full = {}
+    if show:
+        idx = sorted({d[0] for d in show})
+        terms = []
+        for i in idx:
+            w = batch_wire([probes[i].group()])
+            terms += ["run_mech_w %s" % w, "run_spec_w %s" % w]
+        vals = coq_terms(terms, tag + "full")
+        for k, i in enumerate(idx):
+            full[i] = (vals[2 * k], vals[2 * k + 1])
+    by_fn = {}
+    for i, _, _ in viol:
+        by_fn[probes[i].fn] = by_fn.get(probes[i].fn, 0) + 1
+    for i, dm, ds in viol[:5]:
+        p = probes[i]
+        m, s = full.get(i, (None, None))
         ctx.violation("yarel differs from the reference model of %s (shape %s)" % (p.fn, "/".join(map(str, p.shape))),
-                      input=p.snippet(), expected=human(s), actual=human(i), model_M=human(m), probe=p.to_json(),
-                      failing_probes_in_sweep=n_viol)
+                      input=p.snippet(), expected=human(s), actual=human(impl[i].text), model_M=human(m), probe=p.to_json(),
+                      failing_probes_in_sweep=len(viol), failing_probes_per_function=by_fn)
+    for i, dm, ds in corr[:5]:
+        p = probes[i]
+        m, s = full.get(i, (None, None))
+        ctx.corr_broken.append("impl != M (StrFns.v/Index.v) but == S on `%s`: impl %r, M %r (%d such probes)" % (
+            p.body(), human(impl[i].text), human(m), len(corr)))
+    for i, dm, ds in [d for d in diffs if d[1] != d[2]][:5]:
+        m, s = full.get(i, (None, None))
+        ctx.broken.append("M != S on `%s`: M %r, S %r" % (probes[i].body(), human(m), human(s)))
+    combos = set()
+    for p, o in zip(probes, impl):
+        k = outcome_kind(o.text)
+        if not (p.ascii_only and k == "ok"):
+            combos.add((p.fn,) + tuple(str(x) for x in p.shape) + (k,))
     # every printed line must be valid UTF-8
     bad = []
-    distinct = set(printed)
-    for l in distinct:
+    for l in printed:
         try:
             l.decode("utf-8")
         except UnicodeDecodeError:
             bad.append(l)
     for l in bad[:3]:
-        ctx.violation("the language printed a string that is not valid UTF-8", input="(see probes of this run)", expected="valid UTF-8",
+        ctx.violation("the language printed a string that is not valid UTF-8", input="(see the probes of this run)", expected="valid UTF-8",
                       actual=l.hex())
-    sample = sorted(distinct)
+    sample = sorted(printed)
     ctx.rng.shuffle(sample)
-    sample = [l for l in sample if l][:400]
+    sample = [l for l in sample if l][:300]
     if sample:
-        v = yvlib.coq_eval(["YV:StrRun"], ['run_valid_w "%s"%%string' % ";".join(" ".join(str(c) for c in l) for l in sample)], tag="C13utf8" + tag, preamble=PRE)[0]
+        v = coq_terms(['run_valid_w "%s"' % ";".join(" ".join(str(c) for c in l) for l in sample)], tag + "utf8")[0]
         if v is None or len(v) != len(sample):
             ctx.corr_broken.append("Utf8.valid_utf8 could not be evaluated on the printed sample")
         else:
             for l, c in zip(sample, v):
-                py_ok = l not in bad
-                if (c == "T") != py_ok:
+                if (c == "T") != (l not in bad):
                     ctx.corr_broken.append("Utf8.valid_utf8 disagrees with the Python decoder on %s" % l.hex())
                     break
-    return combos, len(distinct), len(sample), n_viol
+    return combos, len(printed), len(sample), len(viol)
 
 
 def run(ctx):
